@@ -14,12 +14,14 @@ Print Assumptions wfb_iff_wf.
    [ok_op_f] only excludes the open findings:
      - OAppend / OInsert / OMuxInsert: the signal is in no layout (or already in that multiplexer,
        for further groups)                                                  [D20 re-attachment, C05]
-     - OSetType / OSetEnum x: single_followers s x (signals behind x in a multiplexer group holding
-       x are held by that group only)                                                 [D35]
-     - OAddValue / OUpdateIndex changing the enum size: single_followers for every referencing
-       signal, and no layout holds two referencing signals                            [D35, D36]
+     - OSetType / OSetEnum x: single_moved s (rel s) x a, a = the change of the size: every signal that
+       the change actually MOVES in a multiplexer group holding x (all followers on shrink, the
+       followers the push reaches on growth: ProofsLayout.moved_in) is held by that group only
+       (the Coq counterpart of the harness classifier vinv.SharedFollowerMoved)       [D35]
+     - OAddValue / OUpdateIndex changing the enum size: the same for every referencing signal,
+       and no layout holds two referencing signals                                    [D35, D36]
      - OSetMinSize: the size of attached referencing signals does not grow            [D03]
-   The other 19 operations carry no hypothesis. Integer arguments are unbounded (Z): the Go code does
+   The other 21 operations carry no hypothesis. Integer arguments are unbounded (Z): the Go code does
    no arithmetic on an unchecked argument after 594ad9e / 39797fd. *)
 Theorem layout_wf_reachable : forall ops, ok_hist_f ops -> forall m,
   wf (8 * gbytes (run ops) m) (msg_view (run ops) m).
